@@ -476,21 +476,32 @@ func famC17(g *Gen, o *Out, n int, thorough bool) {
 			nroots = 2 + g.pick(2)
 		}
 		var roots []cid.Cid
-		if c%3 != 2 && c < 14 {
-			// fixed corpus for the in-process pass: a link (carried by the archive, or lying in the output
-			// directory) towards a neighbour of the output directory — one whose name merely starts with
-			// the output directory's name included — and entries whose names run through that link
-			k := c % 7
-			tgt := strings.ReplaceAll([]string{"../out-old", "SB/out-old", "../out2", "../victim", "SB/victim", "../out-old/sub", "../out-old"}[k], "SB", sb)
+		if c%3 != 2 && c < 54 {
+			// fixed corpus for the in-process pass (35 combinations): a link (carried by the archive, or lying
+			// in the output directory) towards a neighbour of the output directory — one whose name merely
+			// starts with the output directory's name included — and entries whose names run through that
+			// link. Extraction stops at the first refused entry, so the names rotate: one level through the
+			// link, two levels with a missing middle, an existing file.
+			idx := c - (c+1)/3
+			k := idx % 7
+			tgt := strings.ReplaceAll([]string{"../out-old", "SB/out-old", "../out2", "../victim", "SB/victim", "../out-old/sub", "../victim/d"}[k], "SB", sb)
+			os.MkdirAll(filepath.Join(sb, realOut), 0o755) // the corpus wants an existing output directory
+			if fi, err := os.Lstat(outArg); err != nil || !(fi.IsDir() || fi.Mode()&os.ModeSymlink != 0) {
+				os.Remove(outArg)
+				os.MkdirAll(outArg, 0o755)
+				realOut = "out"
+			}
 			var es []dagpb.PBLink
-			if c < 7 {
+			if idx%2 == 0 {
 				es = append(es, dirEntry("a", d.pbNode(ufsData(data.Data_Symlink, []byte(tgt), nil), nil)))
-			} else if fi, err := os.Lstat(outArg); err == nil && fi.IsDir() {
-				os.Remove(filepath.Join(sb, realOut, "a"))
+			} else {
+				os.RemoveAll(filepath.Join(sb, realOut, "a"))
 				os.Symlink(tgt, filepath.Join(sb, realOut, "a"))
 			}
-			es = append(es, dirEntry("a/keep", d.rawLeaf([]byte("NEW"))), dirEntry("a/b", d.rawLeaf([]byte("NEWB"))),
-				dirEntry("a/sub/x", d.rawLeaf([]byte("X"))), dirEntry("a/f", d.rawLeaf([]byte("F"))))
+			// (directory entries are visited in name order and extraction stops at the first refusal: one
+			// name through the link per case)
+			nm := []string{"a/keep", "a/0sub/new/x", "a/b", "a/0new/deep/y", "a/f"}[idx%5]
+			es = append(es, dirEntry(nm, d.rawLeaf([]byte("NEW-"+nm))), dirEntry("zz", d.rawLeaf([]byte("after"))))
 			roots = append(roots, d.pbNode(ufsData(data.Data_Directory, nil, nil), es).(cidlink.Link).Cid)
 			nroots = 0
 		}
